@@ -24,6 +24,22 @@ def make (dbg : Bool) (q : Quat K) : Except Err (SO3 K) := do
   pure ⟨q⟩
 end SO3
 
+namespace SO3
+/-- `SO3(AngleAxis)` -/
+def ofAngleAxis (dbg : Bool) (angle : K) (axis : V3 K) : Except Err (SO3 K) :=
+  make dbg (Quat.ofAngleAxis angle axis)
+/-- `SO3(roll, pitch, yaw)`: `AngleAxis(yaw,Z) * AngleAxis(pitch,Y) * AngleAxis(roll,X)` -/
+def ofRPY (dbg : Bool) (roll pitch yaw : K) : Except Err (SO3 K) :=
+  let qz := Quat.ofAngleAxis yaw ⟨nat 0, nat 0, nat 1⟩
+  let qy := Quat.ofAngleAxis pitch ⟨nat 0, nat 1, nat 0⟩
+  let qx := Quat.ofAngleAxis roll ⟨nat 1, nat 0, nat 0⟩
+  make dbg ((qz.mul qy).mul qx)
+/-- `quat(q)` setter: `MANIF_ASSERT(abs(q.norm()-1) < eps)`; the object keeps its value on failure. -/
+def setQuat (dbg : Bool) (_X : SO3 K) (q : Quat K) : Except Err (SO3 K) := do
+  checkUnit dbg q.norm
+  pure ⟨q⟩
+end SO3
+
 namespace SO3T
 def hat (t : SO3T K) : M3 K := M3.skew t.v
 
